@@ -862,7 +862,7 @@ def check(ctx):
                          pipe_cfg(seed + 1, 'QuickProfiles', maxpost=1, postrate=12, maxnest=1, nestrate=200, win='WinPos'), 'pipe')
         if not only or 'sim' in only:
             sim_stage(ctx, 'Pipe/simulate 4 legs + nested', pipe_cfg(seed, 'SimProfiles', maxpost=2, maxnest=1, declmax=0, nestmax=36, nestn=3, nestlegrate=1),
-                      num=15 if quick else 400, depth=16, seed=seed + 3)
+                      num=15 if quick else 150, depth=16, seed=seed + 3)
     finally:
         pools.close()
     ctx.exhaustive = False
